@@ -79,7 +79,7 @@ MUTANTS = [
      "[c for c in all_looped_ids if int(c[0]) == cond_stage and c[1].split('#', 1)[1] == cond_name]",
      "[c for c in all_looped_ids if c[1].split('#', 1)[1] == cond_name]"),
     ('c05-sequential-reference-rewrite-unfixed', 'C05', 'c05', 150, 'python/experiment/model/frontends/flowir.py',
-     "        value = re.sub(pattern, substitute, value)\n",
+     "        value = re.sub(pattern, lambda matched: rewrites[matched.group(0)], value)\n",
      "        for _m in list(rewrites):\n            value = re.sub(r'\\b' + re.escape(_m) + r'\\b', rewrites[_m].replace('\\\\', '\\\\\\\\'), value, 1)\n"),
     ('c05-foreign-components-from-replicated-description-unfixed', 'C05', 'c05', 150, 'python/experiment/model/graph.py',
      "        foreign_components = self.configuration._unreplicated.get_component_identifiers(True, False)\n",
@@ -90,6 +90,9 @@ MUTANTS = [
     ('c07-platform-global-blueprint-below-default-stage-blueprint-unfixed', 'C07', 'c07', 200, 'python/experiment/model/frontends/flowir.py',
      "            if platform != FlowIR.LabelDefault:\n                global_stage_blueprint = FlowIR.override_object(\n",
      "            if False:\n                global_stage_blueprint = FlowIR.override_object(\n"),
+    ('c05-only-first-occurrence-rewritten-unfixed', 'C05', 'c05', 150, 'python/experiment/model/frontends/flowir.py',
+     "        value = re.sub(pattern, lambda matched: rewrites[matched.group(0)], value)\n",
+     "        value = re.sub(pattern, lambda matched: rewrites[matched.group(0)], value, 1)\n"),
     ('c14-instance-description-written-in-place', 'C14', 'c14rt', 192, 'python/experiment/model/conf.py',
      "        temp_file = '%s.%s.tmp' % (instance_file, uuid.uuid4())\n", "        temp_file = instance_file\n"),
     ('c14-status-written-in-place', 'C14', 'c14rt', 192, 'python/experiment/model/data.py',
